@@ -219,7 +219,7 @@ def step_record(pdu: bytes, pk: str, pb: bytes, vis: bytes | None, raised: str, 
             "vk": "none" if vis is None else "bytes", "vn": 0 if vis is None else len(vis),
             "vb": [] if vis is None else list(vis[:6]),
             "x": raised, "s": st[0], "l": st[1], "a": acc, "al": alive,
-            "hex": pdu.hex() if len(pdu) <= 24 else pdu[:24].hex() + f"..({len(pdu)})",
+            "hex": pdu.hex(),
             "rhex": None if vis is None else vis[:16].hex()}
 
 
